@@ -112,6 +112,10 @@ func thoroughAudit(prop, repo, variantsDir string, res *report.Result) {
 			}
 		}
 	}
+	// behaviour-preserving changes written by sub-agents for this property: must stay silent
+	benign, _ := filepath.Glob(filepath.Join(filepath.Dir(filepath.Dir(variantsDir)), "benign", prop+"_*", "patch.diff"))
+	sort.Strings(benign)
+	pats = append(pats, benign...)
 	if len(pats) == 0 {
 		res.Note("AUDIT", "variants", "", "no variants kept for this property")
 		return
@@ -133,6 +137,9 @@ func thoroughAudit(prop, repo, variantsDir string, res *report.Result) {
 			name = strings.TrimPrefix(name, prop+"__")
 			if filepath.Base(pt) == "patch.diff" {
 				name = "seed_" + filepath.Base(filepath.Dir(pt))
+				if filepath.Base(filepath.Dir(filepath.Dir(pt))) == "benign" {
+					name = "ok_benign_" + filepath.Base(filepath.Dir(pt))
+				}
 			}
 			results[i] = outcome{name, "skipped"}
 			dir, err := os.MkdirTemp("", "lalcheck-var-")
